@@ -318,6 +318,15 @@ def resupplied_rule(prog, rep, rid, only):
                     bad = (f"{hfld} = {nshow(v)}", f"a re-supplied hash_function is not honoured: the loaded structure hashes with {nshow(v)}")
                 if given is None and strip_epochs(v) != hp and not any(n == hp for n in walk(v)):
                     bad = (f"{hfld} = {nshow(v)}", f"the hash_function argument does not reach the structure (it hashes with {nshow(v)})")
+                # sub-structures built on the way (the sub-filters of an expanding filter) must have been given the strategy the structure
+                # ends up with: a strategy installed only AFTER they were built leaves them hashing with the earlier value
+                for e in p.events:
+                    if e.kind == "new" and e.d.get("cls") in prog.classes and e.d.get("cls") != cname and "hash_function" in dict(e.d.get("kwargs") or {}):
+                        hv = strip_epochs(dict(e.kwargs)["hash_function"])
+                        if hv != strip_epochs(v) and not (given is False and hv == C(None)):
+                            bad = (f"sub-structure built with hash_function = {nshow(hv)}",
+                                   f"a {e.cls} is built inside with hash_function = {nshow(hv)} while the structure ends up hashing with {nshow(v)}: what was "
+                                   "restored before the caller's strategy was installed keeps the earlier one")
                 for (cn2, par), fld in OTHER.items():
                     if cn2 == cname and par in f.params:
                         ov = p.fields.get((obj, fld))
@@ -327,6 +336,48 @@ def resupplied_rule(prog, rep, rid, only):
                 rep.bad(rid, f"{cname}.{mn}", bad[0], f"{cname}.{mn}: {bad[1]}: the reloaded structure answers queries differently", f.where())
             else:
                 rep.ok(rid, f"{cname}.{mn}: hash_function honoured")
+
+
+def _closed(v) -> bool:
+    """a value without any symbol: constants and tuples / arithmetic of constants"""
+    return all(n[0] in ("c", "tup", "lst", "bin", "nary", "un") or not isinstance(n[0], str) for n in walk(v))
+
+
+def derived_on_load_rule(prog, rep, rid):
+    """every class whose constructor can load a file: a field that ends up computed from the arguments on the paths that build from
+    parameters (a remembered derived quantity: positions, sizes, rates) must not end up as a bare constant on a path that loads - the
+    loader restored the inputs of that quantity and left the quantity itself at the placeholder the constructor started with"""
+    for cname in sorted(prog.classes):
+        K = prog.classes[cname]
+        init = K.find_method("__init__")
+        if init is None or "filepath" not in init.params:
+            continue
+        ps = [p for p in paths(prog, cname, init, inline="deep") if p.exit[0] == "return"]
+        # (alternate constructors are not judged here: they call the constructor with its defaults, and a default is a constant by design)
+        param, load = {}, {}
+        for p, obj in [(p, SELF) for p in ps]:
+            isload = any(n[0] in ("unp", "unpall", "iterunp") for (b, _), v in p.fields.items() if b == obj for n in walk(v))
+            for (b, n), v in p.fields.items():
+                if b == obj:
+                    (load if isload else param).setdefault(n, []).append(strip_epochs(v))
+        if not load:
+            continue
+        bad = None
+        for n in sorted(param):
+            if all(_closed(x) for x in param[n]):
+                continue
+            # a constant that a parameter path can also end with is a value of the field, not a placeholder
+            pconst = {canon(x) for x in param[n] if _closed(x)}
+            left = [x for x in load.get(n, []) if _closed(x) and canon(x) not in pconst]
+            if left:
+                bad = (n, left[0])
+                break
+        if bad:
+            rep.bad(rid, f"{cname}.__init__", f"{bad[0]} left at {nshow(bad[1])}",
+                    f"{bad[0]} is computed from the arguments when the structure is built from parameters but a loading path leaves it at the constant {nshow(bad[1])}: "
+                    "the loader restored what it is derived from and not the field itself, so the reloaded structure answers with the placeholder", init.where())
+        else:
+            rep.ok(rid, f"{cname}: every field computed by the parameter branch is computed or restored by the loaders")
 
 
 def expand_format(fmt: str) -> str:
@@ -740,6 +791,8 @@ def check(prog, rep, tier):
     # ---------------------------------------------------------------- what the format does not store is honoured when re-supplied
     rep.rule("C05.resupplied", "parameters the format does not store (hash function, queue limit, table sizes, error rate) are honoured when re-supplied", floor=12)
     resupplied_rule(prog, rep, "C05.resupplied", None)
+    rep.rule("C05.derived-on-load", "a field the parameter branch of a constructor computes is not left at a placeholder constant by the loading branch", floor=12)
+    derived_on_load_rule(prog, rep, "C05.derived-on-load")
     from .C07 import fingerprint_final_geometry
     fingerprint_final_geometry(prog, rep, "C05.resupplied-error-rate")
     rep.extra["formats"] = samples
@@ -775,6 +828,16 @@ MUTANTS = [
            replace_stmt("ExpandingBloomFilter", "_parse_blooms", "blm._els_added = int(", "els = int(self.__S_INT64_STRUCT.unpack(bytes(b[start : start + self.__S_INT64_STRUCT.size]))[0])\nif els == 0:\n    self._blooms.append(blm)\n    start = end\n    continue\nblm._els_added = els"), expect="silent"),
     Mutant("expanding _parse_blooms: a frame with counter 0 is not copied and the cursor stays", _E,
            replace_stmt("ExpandingBloomFilter", "_parse_blooms", "blm._els_added = int(", "els = int(self.__S_INT64_STRUCT.unpack(bytes(b[start : start + self.__S_INT64_STRUCT.size]))[0])\nif els == 0:\n    self._blooms.append(blm)\n    continue\nblm._els_added = els"), rule="C05.expanding"),
+    Mutant("expanding __init__ installs the caller's hash strategy only after the file was loaded", _E, seq(
+        replace_stmt("ExpandingBloomFilter", "__init__", "if hash_function is not None", "self.__hash_func = default_fnv_1a"),
+        insert_stmt("ExpandingBloomFilter", "__init__", "if hash_function is not None:\n    self.__hash_func = hash_function", at_end=True)), rule="C05.resupplied"),
+    Mutant("count-min remembers depth // 2 in a field the loader does not refresh", _CM, seq(
+        insert_stmt("CountMinSketch", "__init__", "self._half = 0", before="self.__elements_added = 0"),
+        insert_stmt("CountMinSketch", "__init__", "self._half = self.depth // 2", after="self._bins = array(")), rule="C05.derived-on-load"),
+    Mutant("count-min remembers depth // 2 in a field, refreshed by the loader too (no change of behaviour)", _CM, seq(
+        insert_stmt("CountMinSketch", "__init__", "self._half = 0", before="self.__elements_added = 0"),
+        insert_stmt("CountMinSketch", "__init__", "self._half = self.depth // 2", after="self._bins = array("),
+        insert_stmt("CountMinSketch", "_parse_bytes", "self._half = self.depth // 2", at_end=True)), expect="silent"),
     Mutant("expanding __load forgets the total", _E, del_stmt("ExpandingBloomFilter", "__load", "self._added_elements = els_added"), rule="C05.slot"),
     Mutant("expanding frombytes forgets the total", _E, del_stmt("ExpandingBloomFilter", "frombytes", "blm._added_elements = added_els"), rule="C05.slot"),
     Mutant("CountMinSketch.__bytes__ with its own body", _CM, replace_stmt("CountMinSketch", "__bytes__", "with BytesIO() as f", "return self._bins.tobytes()"), rule="C05.one-body"),
